@@ -86,6 +86,13 @@ func checkC11(c *km.Ctx) {
 			r.AnchorLost("R-C11-1", "decoding of the address blocks in VerifyIPRestrictedX509CertIP")
 		}
 	}
+	if fn := c.P.Func("lib/certgen", "ExtractIPNetsFromIPRestrictedX509"); fn != nil {
+		// "the netblocks read back equal the ones it was minted with": the reader hands back the whole list or an
+		// error - a block that does not decode is never the end of a shorter list reported as success
+		if n := checkErrorAborts(c, "R-C11-1", fn, certgenPkg+".decodeIPV4AddressChoice", 1, "address block that does not decode (reader)"); n == 0 {
+			r.AnchorLost("R-C11-1", "decoding of the address blocks in ExtractIPNetsFromIPRestrictedX509")
+		}
+	}
 
 	// ---------- R-C11-2
 	if ca := c.MustFunc("R-C11-2", "cmd/keymasterd", "(*RuntimeState).checkAuth"); ca != nil {
